@@ -75,6 +75,15 @@ def main():
             return _pe2(*a, **k)
         traceback.format_exception, traceback.print_exception = second_format_exception, second_print_exception
         warnings.simplefilter('default', category=DeprecationWarning)
+    for odd in spec.get('odd', []):
+        # unusual but legal state of the parent process that starting a layer subprocess must cope with
+        if odd == 'syspath_pathobj':
+            import pathlib
+            sys.path.append(pathlib.Path(spec['dir']))          # the import system accepts path-like entries
+        elif odd == 'environ_nonascii':
+            os.environ['VW_ODD_ENV'] = 'caf\u00e9 \u4e2d'
+        elif odd == 'argv0_empty':
+            sys.argv[0] = ''
     sys.stdout, sys.stderr = cap, cap_err
     before = worldlib.snapshot()
     obs = {'aborted': None}
